@@ -282,8 +282,9 @@ func (w *world) tgtName(t [20]byte) []any {
 }
 
 // absSeq maps an int64 order-preservingly into the 31-bit integers of the model; injective on the
-// values the generators use (|x| <= 100000, and up to 9999 above 2^31, 2^40, 2^62 or below MaxInt64).
-var bigBases = []int64{1 << 31, 1 << 40, 1 << 62}
+// values the generators use: |x| <= 100000 and everything within 9999 of 2^31, 2^40, 2^62 or MaxInt64 (on
+// either side, and their negatives); anything else collapses onto the gap between two such regions.
+var bigBases = []int64{1 << 31, 1 << 40, 1 << 62, math.MaxInt64}
 
 func absSeq(x int64) int {
 	if x < 0 {
@@ -295,23 +296,19 @@ func absSeq(x int64) int {
 	if x <= 100000 {
 		return int(x)
 	}
-	if d := math.MaxInt64 - x; d <= 9999 {
-		return 1090000 + int(9999-d)
-	}
-	r := 1000000
+	r := 1000000 + 20000 // between the small values and the first region
 	for i, b := range bigBases {
-		if x >= b {
-			off := x - b
-			if off > 9999 {
-				off = 9999
-			}
-			r = 1000000 + (i+1)*10000 + int(off)
+		switch {
+		case x < b-9999:
+			return r
+		case x-b <= 9999: // b-9999 <= x <= b+9999 (no overflow: x >= b-9999)
+			return 1000000 + (i+1)*20000 + 10000 + int(x-b)
 		}
+		r = 1000000 + (i+2)*20000 // above region i
 	}
 	return r
 }
 
-// sign makes a real signature and remembers what it signs.
 func (w *world) sign(k *keyPair, saltName string, seq int64, valName string) [64]byte {
 	sig := ownSign(k.priv, w.salts[saltName], seq, w.valEnc[valName])
 	w.mu.Lock()
